@@ -11,12 +11,27 @@ pub(crate) fn ungroup(mut expr: &Expr) -> &Expr {
     expr
 }
 
+/// The path is written where an expression is expected (it is called): generic arguments given in
+/// the style of a type (`Helper<u8>::f`, accepted in the list and the string form) need their `::`.
+#[inline]
+fn expression_style(mut path: Path) -> Path {
+    for segment in path.segments.iter_mut() {
+        if let syn::PathArguments::AngleBracketed(arguments) = &mut segment.arguments {
+            if arguments.colon2_token.is_none() {
+                arguments.colon2_token = Some(Default::default());
+            }
+        }
+    }
+
+    path
+}
+
 #[inline]
 pub(crate) fn meta_name_value_2_path(name_value: &MetaNameValue) -> syn::Result<Path> {
     match ungroup(&name_value.value) {
         Expr::Lit(lit) => {
             if let Lit::Str(lit) = &lit.lit {
-                return lit.parse();
+                return lit.parse().map(expression_style);
             }
         },
         // `<T as Trait>::f` is not a `Path`, the other forms refuse it as well
@@ -36,9 +51,9 @@ pub(crate) fn meta_2_path(meta: &Meta) -> syn::Result<Path> {
         Meta::NameValue(name_value) => meta_name_value_2_path(name_value),
         Meta::List(list) => {
             if let Ok(lit) = list.parse_args::<LitStr>() {
-                lit.parse()
+                lit.parse().map(expression_style)
             } else {
-                list.parse_args()
+                list.parse_args().map(expression_style)
             }
         },
         Meta::Path(path) => Err(syn::Error::new(
